@@ -131,7 +131,7 @@ pub fn map_targets_stmt(s: &mut Stmt, f: &mut dyn FnMut(&mut Target)) {
                 f(t)
             }
         }
-        Stmt::Restore(Some(t)) | Stmt::Run(Some(t)) => f(t),
+        Stmt::Restore(Some(t)) | Stmt::Run(Some(t)) | Stmt::FromCmd(_, t) => f(t),
         Stmt::ListCmd(a, b) | Stmt::DeleteCmd(a, b) => {
             if let Some(t) = a {
                 f(t)
